@@ -93,6 +93,11 @@ def d2(cx: Cx, ob: Ob) -> None:
             q = t[1][1]
             if is_const(q):
                 defaults.add(q[1])
+            elif op(q) == "phi":
+                # a local default overwritten inside a loop: `quality = 1.0` ... `for ...: quality = float(..)`
+                for ev, _ in hs.walk():
+                    if ev.kind == "bind" and ev.a == q[1] and is_const(ev.b) and isinstance(ev.b[1], (int, float)):
+                        defaults.add(ev.b[1])
     ob.site(f"{hp.where} {hp.qualname}", f"default q {sorted(defaults)}")
     if defaults and defaults != {1.0} and defaults != {1}:
         ob.violate(hp.qualname, hp.where, f"a media type without q parameter gets q={sorted(defaults)}, not 1.0", detail="default-q")
@@ -243,12 +248,23 @@ def d4(cx: Cx, ob: Ob) -> None:
     for t, ctx in s.returns():
         line = ctx.path.out[2]
         ob.site(f"{where(fn, line)} {fn.qualname}", f"return {show(t)[:80]}")
-        if (op(t) == "list" and not t[1]) or (op(t) == "new" and op(t[4]) == "list" and not t[4][1]):
+        if (op(t) == "list" and not t[1]) or (op(t) == "new" and op(t[4]) == "list" and not t[4][1] and not s.mutations_of(t)):
             saw_none = True
             g = [g for g in ctx.guards if g.kind == "guard"]
             if not any(op(x.a) == "cmp" and is_const(x.a[3], None) and callee_name(x.a[2]) == "parse_uri" for x in g):
                 ob.violate(fn.qualname, where(fn, line), "the empty answer is not tied to parse_uri finding nothing", detail="empty-guard")
             continue
+        if op(t) == "new" and t[1] == "list":
+            from ..rules import Prov, list_segments
+
+            segs = list_segments(s, t, Prov(s))
+            if segs and len(segs) == 1 and segs[0][0] == "each":
+                _, it_, elt_, conds_ = segs[0]
+                tg = ("it",)
+                t = ("comp", "list", elt_, ((tg, it_, tuple(c for c, pol in conds_ if pol is True)),))
+                if any(pol is not True for _, pol in conds_):
+                    ob.undecide("_expand_pair_all: negative filter in the append loop")
+                    continue
         if op(t) != "comp":
             ob.undecide("_expand_pair_all does not return a list comprehension")
             continue
